@@ -1198,28 +1198,37 @@ func txInBlockRecord(rec *blockRecord, hash *wire.Hash) bool {
 	return false
 }
 
-func (s *TxStore) removableTxForRemoveWallet(msgTx *wire.MsgTx, scriptHashSet map[string]struct{}) (bool, error) {
+func (s *TxStore) removableTxForRemoveWallet(nsCredits mwdb.Bucket, msgTx *wire.MsgTx, scriptHashSet map[string]struct{}) (bool, error) {
 
 	// A transaction that spends a coin of another managed wallet must be kept: that wallet's
 	// debit refers to it, and a rollback of its block un-spends the coin through the tx record.
+	// The coin's owner is read from the credit the store itself holds for the previous output,
+	// not from the node's best chain: the node may have reorganised away from the block of that
+	// output (and may come back to it) before the handler has heard of anything.
 	if !blockchain.IsCoinBaseTx(msgTx) {
 		for _, txIn := range msgTx.TxIn {
-			prevTx, err := s.chainFetcher.FetchTxBySha(&txIn.PreviousOutPoint.Hash)
+			prevOut := &txIn.PreviousOutPoint
+			entries, err := getCreditsByTxHash(nsCredits, &prevOut.Hash)
 			if err != nil {
 				return false, err
 			}
-			if prevTx == nil || int64(txIn.PreviousOutPoint.Index) >= int64(len(prevTx.TxOut)) {
-				continue
-			}
-			ps, err := utils.ParsePkScript(prevTx.TxOut[txIn.PreviousOutPoint.Index].PkScript, s.chainParams)
-			if err != nil {
-				continue
-			}
-			if _, ok := scriptHashSet[string(ps.StdScriptAddress())]; ok {
-				continue
-			}
-			if _, err := s.ksmgr.GetManagedAddressByStdAddress(ps.StdEncodeAddress()); err == nil {
-				return false, nil
+			for _, entry := range entries {
+				cred := credit{block: &BlockMeta{}}
+				if err := readRawCreditKey(entry.Key, &cred); err != nil {
+					return false, err
+				}
+				if cred.outPoint.Index != prevOut.Index {
+					continue
+				}
+				if err := readCreditValue(entry.Value, &cred); err != nil {
+					return false, err
+				}
+				if _, ok := scriptHashSet[string(cred.scriptHash)]; ok {
+					continue
+				}
+				if _, err := s.ksmgr.GetManagedAddressByScriptHash(cred.scriptHash); err == nil {
+					return false, nil
+				}
 			}
 		}
 	}
@@ -1307,6 +1316,7 @@ func (s *TxStore) RemoveRelevantTx(tx mwdb.DBTransaction, addrmgr *keystore.Addr
 	nsUnmined := tx.FetchBucket(s.bucketMeta.nsUnmined)
 	nsBlocks := tx.FetchBucket(s.bucketMeta.nsBlocks)
 	nsTxRecords := tx.FetchBucket(s.bucketMeta.nsTxRecords)
+	nsCredits := tx.FetchBucket(s.bucketMeta.nsCredits)
 
 	// unmined tx
 	unminedHashes, err := s.utxoStore.removeRelevantUnminedCredit(tx, scriptHashSet)
@@ -1335,7 +1345,7 @@ func (s *TxStore) RemoveRelevantTx(tx mwdb.DBTransaction, addrmgr *keystore.Addr
 		if err != nil {
 			return nil, false, err
 		}
-		removable, err := s.removableTxForRemoveWallet(&rec.MsgTx, scriptHashSet)
+		removable, err := s.removableTxForRemoveWallet(nsCredits, &rec.MsgTx, scriptHashSet)
 		if err != nil {
 			return nil, false, err
 		}
@@ -1383,7 +1393,7 @@ func (s *TxStore) RemoveRelevantTx(tx mwdb.DBTransaction, addrmgr *keystore.Addr
 		if err != nil {
 			return nil, false, err
 		}
-		removable, err := s.removableTxForRemoveWallet(msgtx, scriptHashSet)
+		removable, err := s.removableTxForRemoveWallet(nsCredits, msgtx, scriptHashSet)
 		if err != nil {
 			return nil, false, err
 		}
